@@ -106,3 +106,37 @@ Definition run_stream (args : list Z) : list Z :=
     match st with Some b => [2; 1; nz (length b)] | None => [2; 0; 0] end
   | [] => [-1]
   end.
+
+(* -------------------------------------------------------------------- heartbeat *)
+From PV Require Import hb.Heartbeat.
+Open Scope Z_scope.
+
+Fixpoint dec_hops (fuel : nat) (l : list Z) : list hop :=
+  match fuel with
+  | O => []
+  | S f =>
+    match l with
+    | 0 :: c :: r => HStart (zb c) :: dec_hops f r
+    | 1 :: r => HStop :: dec_hops f r
+    | 2 :: r => HResp :: dec_hops f r
+    | 3 :: dt :: c :: r => HAdv dt (zb c) :: dec_hops f r
+    | _ => []
+    end
+  end.
+
+Definition enc_hev (e : hev) : list Z :=
+  match e with HSend t => [1; t] | HReset t => [2; t] | HTime t => [3; t] end.
+
+(* [5; interval; timeout; now0; ops...] -> per-op events, each list terminated by 0 *)
+Fixpoint hrun_per_op (i t : Z) (s : hstate) (ops : list hop) : list Z :=
+  match ops with
+  | [] => []
+  | o :: r => let '(s1, e1) := hstep i t s o in
+              concat (map enc_hev e1) ++ [0] ++ hrun_per_op i t s1 r
+  end.
+
+Definition run_hb (args : list Z) : list Z :=
+  match args with
+  | i :: t :: now0 :: ops => hrun_per_op i t (mkH false 0 0 now0) (dec_hops (length ops) ops)
+  | _ => [-1]
+  end.
